@@ -71,6 +71,14 @@ def fresh_surface(rng, sid, used, dck=None):
             dck['transforms'][n] = deckmod.make_tr([0, 0, 0],
                                                    deckmod.rotation(0, ang))
             return {'id': sid, 'mn': 'tz', 'params': prm, 'tr': n, 'bc': ''}
+    if dck is not None and 0.12 <= r < 0.2:
+        # one-sheet cone on the z axis: a collection of two TRIPOLI-4 surfaces
+        prm = [rng.choice([-1.0, 0.0, 0.5]), rng.choice([0.25, 1.0]),
+               rng.choice([1.0, -1.0])]
+        sig = ('kz', tuple(prm))
+        if sig not in used:
+            used.add(sig)
+            return {'id': sid, 'mn': 'kz', 'params': prm, 'tr': None, 'bc': ''}
     if dck is not None and r < 0.35 and dck['surfaces']:
         base = rng.choice(dck['surfaces'])
         mn, prm = base['mn'], list(base['params'])
